@@ -66,14 +66,22 @@ theorem tokenize_total (o : Oracles) (text : List Char) :
   | error loc e => exact Or.inr (Or.inl ⟨loc, e, rfl, error_location_inside o text loc e h⟩)
   | missing w => exact Or.inr (Or.inr ⟨w, rfl, tokenize_missing o text w h⟩)
 
-/-- with an oracle that answers every number text (as `f64::from_str` does) the result is tokens or a located error -/
-theorem tokenize_total_of_total_oracle (o : Oracles) (ho : ∀ w, o.fparse w ≠ .missing) (text : List Char) :
+/-- **Tokenizing is total, with no oracle hypothesis**: whatever number facts a case ships (none, some, all), the
+result is tokens ending in `End` or a located error — a number text without a shipped fact is converted by
+`DecFloat.parseF64` (`tokenize_never_missing`). -/
+theorem tokenize_total_no_oracle (o : Oracles) (text : List Char) :
     (∃ ts init loc, tokenize o text = .ok ts ∧ ts = init ++ [⟨loc, .eof⟩] ∧ ∀ p ∈ ts, Inside text p.loc) ∨
     (∃ loc e, tokenize o text = .error loc e ∧ Inside text loc) := by
-  rcases tokenize_total o text with h | h | ⟨w, _, hw⟩
+  rcases tokenize_total o text with h | h | ⟨w, hw, _⟩
   · exact Or.inl h
   · exact Or.inr h
-  · exact absurd hw (ho w)
+  · exact absurd hw (tokenize_never_missing o text w)
+
+/-- with an oracle that answers every number text (as `f64::from_str` does) the result is tokens or a located error
+(the hypothesis is no longer needed: `tokenize_total_no_oracle`) -/
+theorem tokenize_total_of_total_oracle (o : Oracles) (_ho : ∀ w, o.fparse w ≠ .missing) (text : List Char) :
+    (∃ ts init loc, tokenize o text = .ok ts ∧ ts = init ++ [⟨loc, .eof⟩] ∧ ∀ p ∈ ts, Inside text p.loc) ∨
+    (∃ loc e, tokenize o text = .error loc e ∧ Inside text loc) := tokenize_total_no_oracle o text
 
 /-- **The 'near …' excerpt can be produced**: for every text and every location — produced by the tokenizer or
 not, inside the text or not — `extract_near` performs no out-of-range slice access. -/
@@ -155,16 +163,31 @@ theorem int_out_of_range_is_error (o : Oracles) (st : St) (w : List Char) (hne :
     flushNumber o st w false = .fail ⟨st.line, st.col⟩ .intConvert := by
   rw [int_run_token_or_error o st w hne hd, if_neg (by omega)]
 
-/-- a number with a fraction is a token or the error `floatConvert`, as `f64::from_str` decides — never a panic -/
+/-- a number with a fraction is a token or the error `floatConvert`, as `f64::from_str` decides — never a panic, and
+never `missing`: without a shipped fact the conversion is `DecFloat.parseF64` -/
 theorem float_run_token_or_error (o : Oracles) (st : St) (w : List Char) :
     (∃ b, flushNumber o st w true = .run (st.add (.float b))) ∨
-    flushNumber o st w true = .fail ⟨st.line, st.col⟩ .floatConvert ∨ flushNumber o st w true = .missing w := by
+    flushNumber o st w true = .fail ⟨st.line, st.col⟩ .floatConvert := by
   unfold flushNumber
   simp only [if_true]
   cases o.fparse w with
   | bits b => exact Or.inl ⟨b, rfl⟩
   | err => simp
-  | missing => simp
+  | missing =>
+    cases DecFloat.parseF64 w with
+    | some b => exact Or.inl ⟨b, rfl⟩
+    | none => simp
+
+/-- the oracle that ships no number fact at all: every number text is converted by `DecFloat.parseF64`
+(`Model/DecFloat.lean`, proved to round correctly in `Lemmas/DecFloat.lean`) -/
+def noNumberFacts (ext : Char → CharInfo) : Oracles := { ext := ext, fparse := fun _ => .missing }
+
+/-- without any shipped fact the REAL token of a number text with a fraction is `f64::from_str` as computed in Lean -/
+theorem float_token_is_parseF64 (ext : Char → CharInfo) (st : St) (w : List Char) :
+    flushNumber (noNumberFacts ext) st w true =
+      match DecFloat.parseF64 w with
+      | some b => .run (st.add (.float b))
+      | none => .fail ⟨st.line, st.col⟩ .floatConvert := rfl
 
 /-! ### non-vacuity and sharpness -/
 
